@@ -718,6 +718,7 @@ package xpath
 //@   ghost ctxp(self) = old(ctxp(o))
 //@   ensures[ghost-k@C08] is(o, query) ==> k(o) == ite(old(k(o)) < slen(ref(o), epoch(o)), old(k(o)) + 1, old(k(o))) && epoch(o) == old(epoch(o))
 //@   ensures[number@C08] sameF(result, numv(o, old(k(o))))
+//@   ensures[xpath-lexical@C08] is(o, string) ==> sameF(result, xnum(as(o, string)))   // known finding: ParseFloat's lexical space is not XPath's
 //@   tree-frame
 //@   disjoint-operands
 //@   preserves heap(F:NodeIterator.*)
@@ -1112,7 +1113,7 @@ package xpath
 //@   props C15 C10
 //@   requires[valtype@C15] is(v, float64) || is(v, string)
 //@   modifies nothing
-//@   ensures[shape@C10] result != nil && is(result, *operandNode)
+//@   ensures[shape@C10] result != nil && is(result, *operandNode) && isFresh(result) && as(result, *operandNode).Val == v
 //@ func newAxisNode
 //@   props C15 C10
 //@   modifies nothing
@@ -1240,7 +1241,8 @@ package xpath
 //@   ensures[swf@C17] swf(p.r)
 //@   loop 0 invariant[swf@C17] swf(p.r)
 //@ func (*parser).parseUnaryExpr
-//@   props C06 C10 C17 C15
+//@   props C06 C10 C17 C15 C08
+//@   ensures[negation@C08] minus ==> is(result, *operatorNode) && as(result, *operatorNode).Op == "*" && is(as(result, *operatorNode).Right, *operandNode) && as(as(result, *operatorNode).Right, *operandNode).Val == box(float(0 - 1))
 //@   requires[depth@C06] p != nil && 0 <= p.d && p.d <= 200
 //@   maypanic
 //@   modifies heap(F:scanner.*), p.d
@@ -1750,14 +1752,16 @@ package xpath
 //@   ensures[swf@C17] swf(s)
 //@   loop 0 invariant[swf@C17] swf(s)
 //@ func (*scanner).scanFraction
-//@   props C06 C17
+//@   props C06 C17 C08
+//@   ensures[lexeme-value@C08] sameF(result, parsefloat_val(s.text[i:i+c])) && i == old(s.pos) - 2
 //@   requires[swf@C17] swf(s)
 //@   maypanic
 //@   modifies s.curr, s.currSize, s.pos
 //@   ensures[swf@C17] swf(s)
 //@   loop 0 invariant[swf@C17] swf(s)
 //@ func (*scanner).scanNumber
-//@   props C06 C17
+//@   props C06 C17 C08
+//@   ensures[lexeme-value@C08] sameF(result, parsefloat_val(s.text[i:i+c])) && i == old(s.pos) - 1
 //@   requires[swf@C17] swf(s)
 //@   maypanic
 //@   modifies s.curr, s.currSize, s.pos
